@@ -173,7 +173,10 @@ class ComputeTypeVisitor(Visitor.DefaultVisitor):
                 )
                 expr.SetType(expr.GetOperator().GetReturnType())
             elif isinstance(expr, ast.AffixExpression):
-                expr.SetType(expr.children[0].GetType())
+                operandType = expr.children[0].GetType()
+                if not (operandType.IsPrimitive() and operandType.IsScalar()):
+                    Errors.ERROR_AFFIX_REQUIRES_SCALAR.Raise(operandType)
+                expr.SetType(operandType)
 
         return expr.GetType()
 
